@@ -226,7 +226,11 @@ def compare(ctx, enums, wit, step):
             elif isinstance(v, complex):
                 near += [int(v.real), v.real]
         far = [-1, -2, -128, -255, -256, -257, 255, 256, 65535, 1 << 40, -(1 << 40), "", "absent", None, (), 0.25]
-        for probe in list(model.values()) + [("absent", object)] + near + far[(step_hash(step) % 4)::4]:
+        # objects that mean "several" or "a window" elsewhere in Python are values like any other here: they find the name that
+        # carries an equal object, else nothing
+        lo, hi = (min(ints), max(ints) + 1) if ints else (0, 8)
+        far += [slice(lo, hi), slice(None), slice(0, 8), slice(lo, None, 1), range(lo, hi), Ellipsis, NotImplemented, int, (lo, hi), frozenset(ints[:3]), [lo, hi], {"start": lo, "stop": hi}]
+        for probe in list(model.values()) + [("absent", object)] + near + far[(step_hash(step) % 4)::4] + far[16:][(step_hash(step) % 3)::3]:
             want = ""
             for k, v in model.items():
                 try:
